@@ -347,6 +347,7 @@ theorem coupled_step {s : Srv} {b : Bot} (hw : SrvWF s) (hc : Coupled s b) (a : 
   | mode src c cs => exact coupled_mode hw hc src c cs ha
   | topic src c t => exact coupled_topic hw hc src c t
   | chghost n i ho => exact coupled_chghost hw hc n i ho
+  | say n t x => exact coupled_say hw hc n t x
   | names c => exact coupled_names hw hc c
   | who c => exact coupled_replyWho hw hc c
   | modeis c => exact coupled_replyMode hw hc c
